@@ -28,3 +28,21 @@ Definition model_wire (kind : Z) (ms : list (option (list Z) * list Z)) : option
 
 Definition walk_body_ok (kind : Z) (m : option (list Z) * list Z) : bool :=
   zlen (k_enc kind (snd m)) <=? walk_limit.
+
+(** widening: Reads that return (0, nil).  [insert_empties pos cs] inserts an empty chunk
+    BEFORE the chunk of index [p mod |cs|], for each [p] of [pos] in turn (so never
+    after the last chunk; nothing is inserted into an empty list). *)
+Fixpoint insert_at {A} (n : nat) (x : A) (l : list A) : list A :=
+  match n, l with
+  | O, _ => x :: l
+  | S k, y :: t => y :: insert_at k x t
+  | S k, [] => [x]
+  end.
+
+Definition insert_empties (pos : list Z) (cs : list (list Z)) : list (list Z) :=
+  fold_left (fun cs p => match cs with
+                         | [] => cs
+                         | _ => insert_at (Z.to_nat (p mod zlen cs)) [] cs
+                         end) pos cs.
+
+Definition all_nonneg (l : list Z) : bool := forallb (fun k => 0 <=? k) l.
